@@ -1,7 +1,7 @@
 (* C09: acceptance by the (transcribed) arrow-rs validator implies validity under the independent
    specification validator, for whole array trees over the covered data types. *)
 From Coq Require Import List Arith NArith ZArith Lia Bool.
-From AV Require Import Model.C09_Layout Model.C09_Validate Proofs.C09_Tree Proofs.C09_Accept Proofs.C09_Nodes Proofs.C09_Nodes2.
+From AV Require Import Model.C09_Layout Model.C09_Validate Proofs.C09_Tree Proofs.C09_Accept Proofs.C09_Nodes Proofs.C09_Nodes2 Proofs.C09_Nodes3.
 Import ListNotations.
 
 Lemma node_accept a :
@@ -16,6 +16,7 @@ Proof.
   - now apply acc_TFixedBin.
   - destruct utf8; [discriminate|]. now apply acc_TBin.
   - now apply acc_TList.
+  - now apply acc_TListView.
   - now apply acc_TFixedList.
   - apply Nat.eqb_eq in Hc. subst off. now apply acc_TStruct.
   - now apply acc_TDict.
